@@ -63,9 +63,23 @@ class ConstantFolder(BlockPass):
                 and value.ty.is_integer
                 and self.is_const(value.a)
                 and self.is_const(value.b)
+                and self.is_defined(value)
             )
         else:
             return False
+
+    def is_defined(self, value):
+        """Check that a binop on constants has a defined result.
+
+        Division by zero and shifts by a negative amount or by at least
+        the width of the type are left alone.
+        """
+        if value.operation == "%":
+            return self.eval_const(value.b).value != 0
+        elif value.operation in ("<<", ">>"):
+            return 0 <= self.eval_const(value.b).value < value.ty.bits
+        else:
+            return True
 
     def eval_const(self, value):
         """Evaluate expression, and return a new const instance"""
